@@ -183,6 +183,11 @@ var badReturnPrograms = []prog{
 	mkProg("modskip", "S:1:R,1,0:2:0:0:0 C:1:R,1,2:2 S:2:R,0,3:3:0:0:0"),
 	mkProg("modpause", "S:1:P,1:2:0:0:0 S:2:R,1,3:3:0:0:0"),
 	mkProg("modcancel", "S:1:X,1:2:0:0:0"),
+	// two callbacks on one status: the first moves the run on, the second cancels / pauses / fails — each callback acts on the run
+	// as it is NOW, so the second one finds it moved on and does nothing
+	mkProg("two-cbs-move-then-cancel", "S:1:R,1,2:2:0:0:0 C:2:R,1,3:3 C:2:X,1:3 S:3:R,1,4:4:0:0:0"),
+	mkProg("two-cbs-move-then-pause", "S:1:R,1,2:2:0:0:0 C:2:R,1,3:3 C:2:P,1:3 S:3:R,1,4:4:0:0:0"),
+	mkProg("two-cbs-complete-then-cancel", "S:1:R,1,2:2:0:0:0 C:2:R,1,3:3 C:2:X,1:3"),
 }
 
 var faultableMut = map[string]bool{"ST": true, "SD": true, "DO": true, "AK": true, "TC": true, "TM": true, "TX": true}
@@ -327,7 +332,11 @@ func genEngine(p *params, emit func(string, bool)) {
 		genFaults(p, emit, 0.25)
 		genControl(p, prop, emit)
 		genStartingPoints(p, emit)
-	default: // C01 C05 C06 C07 C11 and the unprojected self-test
+		genStaleStepReads(p, emit)
+	case "C05":
+		genFaults(p, emit, 1.0)
+		genRelayBatches(p, emit)
+	default: // C01 C06 C07 C11 and the unprojected self-test
 		genFaults(p, emit, 1.0)
 	}
 	_ = r
@@ -731,6 +740,36 @@ func genStaleReads(p *params, emit func(string, bool)) {
 	}
 }
 
+// C16: the first lookup of a STEP consumer is answered by a lagging replica (no deletion in these programs: what the delete
+// consumer does on a stale row is outside C16's histories): the announcement is newer than what the store returned, so no
+// function may run on that older version — it is retried until the store has caught up; versions keep growing by one
+func genStaleStepReads(p *params, emit func(string, bool)) {
+	progs := []prog{
+		mkProg("stale16-linear", "S:1:R,1,2:2:0:0:0 S:2:R,1,3:3:0:0:0 S:3:R,1,4:4:0:0:0"),
+		mkProg("stale16-cycle", "S:1:R,1,2:2:0:0:0 S:2:R,1,3:3:0:0:0 S:3:B,R,1,2,R,1,4:2,4:0:0:0"),
+		mkProg("stale16-selfloop", "S:1:R,1,2:2:0:0:0 S:2:R,1,2:2,3:0:0:0 C:2:R,1,3:3 S:3:R,1,4:4:0:0:0"),
+	}
+	for _, pr := range progs {
+		base := []string{"tr:1:0:4", "tr:2:0:7"}
+		base = append(base, pr.rounds(3)...)
+		base = append(base, "ct:1:0", "ct:1:1")
+		if pr.name == "stale16-selfloop" {
+			base = append(base, "cb:1:2", "cb:2:2")
+		}
+		base = append(base, pr.rounds(4)...)
+		rec := pr.rounds(4)
+		obs := runEngine("eng", strings.Fields(scenario(pr, base))[1:])
+		for _, cp := range callPositions(obs) {
+			if cp.kind != "LK" || cp.occ != 0 || !strings.HasPrefix(base[cp.op], "st:") || !strings.Contains(base[cp.op], "/s") {
+				continue
+			}
+			ops := withFault(base, cp.op, fmt.Sprintf("LK.%d.sr", cp.occ))
+			ops = append(ops, rec...)
+			emit(scenario(pr, ops), true)
+		}
+	}
+}
+
 // a pause / cancel written through a STALE HANDLE (a controller made from an earlier read of the run: the lookup of the control
 // operation is answered by the previous version) while the announcement of the run's latest move is still undelivered: the
 // stale write has the version that announcement carries, so only the stopped-run check keeps the step function away
@@ -778,6 +817,51 @@ func genTriggers(p *params, emit func(string, bool)) {
 		if r.Intn(3) == 0 {
 			ops = randomFaultRun(r, pr, ops, 1+r.Intn(2))
 		}
+		emit(scenario(pr, ops), true)
+	}
+}
+
+// several writes between two relay cycles: one batch then holds entries of the same status for different topics (a run written
+// at a status and paused / cancelled / resumed there before the relay caught up; completed and asked to be deleted in one batch)
+func genRelayBatches(p *params, emit func(string, bool)) {
+	r := p.rng
+	pr := mkProg("relay-batch", "S:1:R,1,2:2:0:0:0 C:2:R,1,3:3 S:3:R,1,4:4:0:0:0 H:3:0 D:0")
+	for _, mid := range []string{"ct:1:0", "ct:1:0 ct:1:1", "ct:1:0 ct:1:2", "ct:1:0 ct:1:1 ct:1:0", "ct:1:0 ct:1:2 ct:1:3"} {
+		ops := []string{"tr:1:0:4"}
+		ops = append(ops, strings.Fields(mid)...)
+		ops = append(ops, pr.rounds(4)...)
+		emit(scenario(pr, ops), true)
+		ops = []string{"tr:1:0:4", "tr:2:0:7"}
+		ops = append(ops, pr.rounds(2)...)
+		ops = append(ops, "cb:1:2")
+		ops = append(ops, strings.Fields(mid)...)
+		ops = append(ops, "cb:2:2", "ct:2:0")
+		ops = append(ops, pr.rounds(4)...)
+		emit(scenario(pr, ops), true)
+	}
+	for i := 0; i < p.pick(80, 2000); i++ {
+		var ops []string
+		n := 6 + r.Intn(16)
+		for j := 0; j < n; j++ {
+			switch r.Intn(10) {
+			case 0, 1:
+				ops = append(ops, fmt.Sprintf("tr:%d:0:%d", 1+r.Intn(3), r.Intn(9)))
+			case 2:
+				ops = append(ops, fmt.Sprintf("cb:%d:2", 1+r.Intn(3)))
+			case 3, 4, 5, 6:
+				ops = append(ops, fmt.Sprintf("ct:%d:%d", 1+r.Intn(4), r.Intn(4)))
+			case 7:
+				// everything but the relay takes a turn
+				for _, o := range pr.round() {
+					if !strings.HasSuffix(o, "/o") {
+						ops = append(ops, o)
+					}
+				}
+			default:
+				ops = append(ops, permuteRounds(r, pr, 1)...)
+			}
+		}
+		ops = append(ops, pr.rounds(3)...)
 		emit(scenario(pr, ops), true)
 	}
 }
